@@ -892,3 +892,28 @@ mutant('C17', 'current-unassigned-in-dead-zone-when-i0-zero', DC, """           
             else:""", """            if pwm_min == 0:
                 return
             else:""", 'C17.computed')
+
+# ------------------------------------------------------------------------------------------ stepping loop spelled with a counter
+_STEP_FULL = """        for k in range(1, simulation_steps + 1):
+
+            self.__powertrain.update_time(
+                initial_time + k*time_discretization
+            )
+            self._time_integration(time_discretization=time_discretization)
+            self._compute_powertrain_variables(motor_control=motor_control)
+            if stop_condition is not None:
+                if stop_condition.check_condition():
+                    break
+"""
+_STEP_WHILE = """        k = 1
+        while k <= simulation_steps:
+            self.__powertrain.update_time(initial_time + k*time_discretization)
+            self._time_integration(time_discretization=time_discretization)
+            self._compute_powertrain_variables(motor_control=motor_control)
+            if stop_condition is not None and stop_condition.check_condition():
+                break
+            k += 1
+"""
+for _pid in ('C01', 'C03', 'C11', 'C12', 'C16', 'C17'):
+    benign(_pid, 'stepping-with-a-counting-while', SV, _STEP_FULL, _STEP_WHILE)
+mutant('C11', 'counting-while-one-short', SV, _STEP_FULL, _STEP_WHILE.replace('while k <= simulation_steps', 'while k < simulation_steps'), 'C11.grid')
